@@ -99,7 +99,8 @@ def gen_case(rng, tier, index):
             "policy": rng.choice(S.POLICIES),
             "policy_param": rng.randrange(0, 4),
             "counter": rng.random() < 0.7,
-            "batch": rng.choice([0, 0, 2, 3, 32])}
+            "batch": rng.choice([0, 0, 2, 3, 32]),
+            "prefetch": rng.choice([1, 2, 5])}
 
 
 # ------------------------------------------------------------------ prim
@@ -200,7 +201,8 @@ def resolve_opts(case, n_examples, n_shards):
     fp = {"s": max(1, n_shards), "s+2": n_shards + 2,
           "s-1": max(1, n_shards - 1)}.get(fp, fp)
     return {"repeat": False, "shuffle": shuffle, "fp": fp,
-            "batch": case.get("batch", 0)}
+            "batch": case.get("batch", 0),
+            "prefetch": case.get("prefetch", 1)}
 
 
 def run_iface(case):
